@@ -162,6 +162,8 @@ def generate(rs, mode, tier, index):
     k = rng.choice([2, 3, 4], p=[0.25, 0.5, 0.25])
     mg = rng.integers(k + 2, 16)
     G = sig(rng.uniform(0.05, 2.0, (mg, k)))
+    if rng.coin(0.4):
+        G[0] = 0.0     # the dark point: part of every gamut whose sources can be switched off
     pool["G"] = G
     pool["G+"] = np.vstack([G, sig(rng.uniform(0.05, 2.5, (rng.integers(1, 5), k)))])
     # estimator for the fractional gamut in absolute capture
@@ -408,6 +410,7 @@ def chroma_measure(pts, metric, mc_seed, n_code):
     """(value, se, sd) of the chromaticity hull of `pts` in the unit-edge barycentric chart:
     the chart is a similarity of ratio 1/sqrt(2) of the plane {sum = 1}."""
     from scipy.spatial import ConvexHull
+    pts = pts[pts.sum(1) != 0]          # the dark point has no chromaticity
     C = pts / pts.sum(1, keepdims=True)
     k = C.shape[1]
     Y, r = span_coords(C)
